@@ -5,6 +5,8 @@ docstrings) + law monitors that need no model (stable sorted permutation,
 order-preserving partition, skip/take recomposition, reverse involution,
 De Morgan on any/all, toSet idempotence).
 """
+import re
+
 import yaql
 from yaql.language import utils as yutils
 
@@ -23,7 +25,7 @@ ASSUMPTIONS = [
     'negative positions/counts/lengths where the docstrings are silent are modelled after the observed behaviour '
     '(characterised in DESIGN.md), except list insertion at negative positions, which is not judged',
 ]
-REQUIRED = {'fn.*': 100, 'cases': 3000, 'agree.value': 2000, 'agree.error': 100, 'kind.iter': 300, 'kind.tuple': 300,
+REQUIRED = {'world.no-queries-module': 50, 'world.delegates': 500, 'world.python-convention': 100, 'fn.*': 100, 'cases': 3000, 'agree.value': 2000, 'agree.error': 100, 'kind.iter': 300, 'kind.tuple': 300,
             'kind.set': 100, 'laws.checked': 300, 'pipelines': 300, 'pr.*': 90}
 
 ELEMS_INT = [0, 1, 2, 3, -1, 5, 2, 1]
@@ -42,6 +44,9 @@ def gen_elems(rng, n, flavor):
         return [rng.choice([[1, 2], [], [3], 1, [[4]], 0]) for _ in range(n)]
     if flavor == 'mixed':
         return [rng.choice([1, 'a', None, True, 2.5, [1]]) for _ in range(n)]
+    if flavor == 'sets':
+        # equal sets written in either element order are one value
+        return [frozenset(p) for p in (rng.choice([(1, 2), (2, 1), (1,), (), (3, 1, 2), (2, 3, 1)]) for _ in range(n))]
     if flavor == 'dicts':
         # equal dicts written with their keys in either order are one value (for =, distinct, sets, groupBy keys, in)
         out = []
@@ -64,7 +69,10 @@ class Coll:
         return iter(e) if self.kind == 'iter' else e
 
     def real(self):
-        conv = yutils.convert_input_data(self.elems)
+        if any(isinstance(e, frozenset) for e in self.elems):
+            conv = tuple(self.elems)          # yaql's own set values (a host frozenset would be read as a lazy sequence)
+        else:
+            conv = yutils.convert_input_data(self.elems)
         if self.kind == 'set':
             return frozenset(conv)
         if self.kind == 'iter':
@@ -237,6 +245,11 @@ def _specs():
     w_seq('concat3', '$c.concat({s}, [5])', lambda c, n, m: ml.m_concat(c, [77, 78], [5]))
     w_seq('zip-lit', '$c.zip({s})', lambda c, n, m: ml.m_zip(c, [77, 78]))
     w_seq('plus-lit', '$c + {s}', lambda c, n, m: ml.m_concat(c, [77, 78]))
+    huge = lambda rng, c: rng.choice([2 ** 63 - 1, 2 ** 63, 2 ** 64 + 1, 10 ** 30])  # noqa: E731  (beyond any machine word; take/skip/list insert follow itertools/list and reject such numbers - not judged)
+    w_two('insert-iter-huge', '$c.select($).insert({n}, {m})', lambda c, n, m: ml.m_insert(c, n, m), g1=huge, g2=lambda rng, c: 77)
+    w_two('insertMany-huge', '$c.insertMany({n}, [{m}, 78])', lambda c, n, m: ml.m_insert_many(c, n, [m, 78]), g1=huge, g2=lambda rng, c: 77)
+    w_two('delete-huge', '$c.delete({n}, {m})', ml.m_delete, g1=huge, g2=lambda rng, c: 1)
+    w_two('replace-huge', '$c.replace({n}, 77)', lambda c, n, m: ml.m_replace(c, n, 77), g1=huge)
     w_two('aggregate-seed', '$c.aggregate($1 + $2, {n})', lambda c, n, m: ml.m_aggregate(c, lambda a, b: ml.op('+', a, b), n))
     w_two('accumulate-seed', '$c.accumulate($1 + $2, {n})', lambda c, n, m: ml.m_accumulate(c, lambda a, b: ml.op('+', a, b), n))
     w_two('range2', 'range({n}, {m})', lambda c, n, m: list(range(n, m)))
@@ -371,6 +384,26 @@ def misc_cases(rng):
     n = rng.randrange(0, 5)
     lst = [rng.choice(ELEMS_INT) for _ in range(n)]
     v = {'c': tuple(lst)}
+    # an element function that fails with StopIteration fails the evaluation; it does not end the collection early
+    k = rng.choice(ELEMS_INT)
+
+    def stopper(f):
+        def model():
+            out = []
+            for x in lst:
+                if x == k:
+                    raise ml.ModelError('StopIteration inside the element function')
+                out.append(x)
+            return f(out)
+        return model
+    yield 'stop-in-select', '$c.select(stopAt($, %d)).toList()' % k, v, stopper(lambda o: o), False
+    yield 'stop-in-where', '$c.where(stopAt($, %d) > -100).toList()' % k, v, stopper(lambda o: o), False
+    yield 'stop-in-takeWhile', '$c.takeWhile(stopAt($, %d) > -100).toList()' % k, v, stopper(lambda o: o), False
+    if len(lst) >= 2:     # (a single element is never compared, so its key is never computed)
+        yield 'stop-in-orderBy', '$c.orderBy(stopAt($, %d)).toList()' % k, v, stopper(lambda o: sorted(o)), False
+    yield 'stop-in-any', '$c.any(stopAt($, %d) > 100)' % k, v, stopper(lambda o: False), False
+    yield 'stop-in-toDict', '$c.toDict(stopAt($, %d)).len()' % k, v, stopper(lambda o: len(set(o))), False
+    yield 'stop-in-sum', '$c.select(stopAt($, %d)).sum(0)' % k, v, stopper(lambda o: sum(o)), False
     # list() / set() splice lazily produced arguments, at every depth of laziness; real lists stay elements
     nn = [[rng.choice(ELEMS_INT) for _ in range(rng.randrange(0, 3))] for _ in range(rng.randrange(0, 4))]
     vn = {'nn': tuple(tuple(x) for x in nn)}
@@ -451,8 +484,40 @@ class Mon:
         self.rec = rec
         self.eng = yq.engine({'yaql.limitIterators': 10000, 'yaql.memoryQuota': 50000000})
         self.ctx = yaql.create_context()
+        # a host function whose failure is a StopIteration (a bare next() on an exhausted iterator): a failure of the
+        # element function, never the end of the collection
+        def stop_at(x, k):
+            if x == k:
+                raise StopIteration()
+            return x
+        self.ctx = self.ctx.create_child_context()
+        self.ctx.register_function(stop_at, name='stopAt')
+        # other worlds in which a case must come out the same: a context without the queries module (for cases that
+        # never entered a function of that module), a context with the delegate functions, a context with another
+        # naming convention (for texts without keyword arguments)
+        from yaql.language import conventions as yconv
+        self.worlds = {}
+        for wname, kw in (('no-queries-module', {'queries': False}), ('delegates', {'delegates': True}),
+                          ('python-convention', {'convention': yconv.PythonConvention()})):
+            w = yaql.create_context(**kw).create_child_context()
+            w.register_function(stop_at, name='stopAt' if wname != 'python-convention' else 'stopAt')
+            self.worlds[wname] = w
+        full = yaql.create_context()
+        noq = yaql.create_context(queries=False)
+
+        def names(c):
+            out = {}
+            while c is not None:
+                for nm, fds in getattr(c, '_functions', {}).items():
+                    out.setdefault(nm, set()).update(getattr(fd.payload, '__qualname__', repr(fd.payload)) + '@' + getattr(
+                        fd.payload, '__module__', '') for fd in fds)
+                c = c.parent
+            return out
+        nf, nq = names(full), names(noq)
+        # names to which the queries module contributes at least one overload
+        self.queries_only_names = {nm for nm in nf if nf[nm] != nq.get(nm)}
         self.reach = hooks.Reach()
-        for o in cat.build(self.ctx):
+        for o in cat.build(yaql.create_context()):
             mod = o.code_owner.__module__.split('.')[-1]
             if mod in ('queries', 'collections', 'system'):
                 self.reach.watch(o.code_owner, 'payload.%s.%s' % (mod, o.code_owner.__name__))
@@ -465,18 +530,47 @@ class Mon:
             del self.reach.counts[k]
         self.reach.stop()
 
-    def run(self, text, vars_):
-        ctx = self.ctx.create_child_context()
+    def queries_calls(self):
+        return sum(v for k, v in self.reach.counts.items() if k.startswith('payload.queries.'))
+
+    def run(self, text, vars_, data=None, world=None):
+        ctx = (self.worlds[world] if world else self.ctx).create_child_context()
         for k, v in vars_.items():
             ctx[k] = v
         try:
+            if data is not None:
+                return ('value', self.eng(text).evaluate(data=data, context=ctx))
             return ('value', self.eng(text).evaluate(context=ctx))
         except Exception as e:
             return ('error', type(e).__name__)
 
-    def compare(self, name, text, real_vars, thunk, unordered, desc, stop_iteration=False, replay=None):
+    def compare(self, name, text, real_vars, thunk, unordered, desc, stop_iteration=False, replay=None, data=None):
         rec = self.rec
-        got = self.run(text, real_vars)
+        q0 = self.queries_calls()
+        colls = real_vars
+
+        def fresh():
+            return {k: (v.real() if isinstance(v, Coll) else v) for k, v in colls.items()}
+        real_vars = fresh()
+        reusable = not any(hasattr(v, '__next__') and not isinstance(colls[k], Coll) for k, v in real_vars.items()) and data is None
+        got = self.run(text, real_vars, data)
+        try:
+            used_queries = bool(yq.function_names(self.eng(text).expression) & self.queries_only_names)
+        except Exception:
+            used_queries = True
+        if reusable:
+            for wname in self.worlds:
+                if wname == 'no-queries-module' and used_queries:
+                    continue
+                if wname == 'python-convention' and ('=>' in text or re.search(r'[a-z][A-Z]', text)):
+                    continue        # keyword names and camelCase function names are spelled differently there
+                other = self.run(text, fresh(), None, world=wname)
+                rec.count('world.' + wname)
+                same_out = other[0] == got[0] and (other[1] == got[1] if got[0] == 'error' else deep_same(other[1], got[1], unordered))
+                if not same_out:
+                    rec.violation('result-depends-on-context-flavour:%s' % wname,
+                                  '%s with %s gives %r in the default context and %r in the %s context' % (text, desc, got, other, wname),
+                                  replay or {'kind': 'none'})
         try:
             want = ('value', ml.finalize(thunk()))
         except RecursionError:
@@ -528,17 +622,17 @@ def _functions(spec, mon, rec, rng):
             flavor = None
             if s.name.startswith(('orderBy', 'max', 'min', 'sum', 'toSet', 'toDict', 'groupBy', 'distinct')):
                 flavor = rng.choice(['int', 'int', 'null', 'str'])
-                if s.name.startswith(('groupBy', 'distinct')) and rng.random() < 0.3:
-                    flavor = 'dicts'        # hashing operators on equal dicts written in either key order
+                if s.name.startswith(('groupBy', 'distinct')) and rng.random() < 0.4:
+                    flavor = rng.choice(('dicts', 'dicts', 'sets'))   # hashing operators on equal dicts / sets written in either order
             c = gen_coll(rng, flavor, kinds)
             if c.kind == 'set' and not all(isinstance(e, int) and not isinstance(e, bool) for e in c.elems):
                 # short-circuiting and erroring lambdas make results depend on set iteration order
                 c = gen_coll(rng, 'int', ('set',))
             text, extra, thunk = s.build(rng, c)
-            real = {'c': c.real()}
+            real = {'c': c}
             desc = 'c=' + c.desc()
             for k, d in extra.items():
-                real[k] = d.real()
+                real[k] = d
                 desc += ' %s=%s' % (k, d.desc())
             rec.count('kind.' + c.kind)
             rec.case((text, desc), nontrivial=bool(c.elems) or s.name.startswith(('range', 'repeat')))
@@ -546,6 +640,17 @@ def _functions(spec, mon, rec, rng):
                                         s.stop_iteration,
                                         {'kind': 'fn', 'name': s.name, 'shard': spec['name'], 'index': i,
                                          'per_fn': spec['per_fn']})
+            # the same collection handed over as raw host data (a python tuple / list whose elements are still
+            # python lists and dicts): evaluate() converts it itself
+            if i % 3 == 0 and c.kind == 'tuple' and not extra and not any(isinstance(e, frozenset) for e in c.elems):
+                import copy
+                shape = rng.choice((tuple, list))
+                host = {'c': shape(copy.deepcopy(c.elems))}
+                text2 = re.sub(r'\$c\b', '$.c', text)
+                rec.count('kind.host-data')
+                mon.compare(s.name, text2, {}, lambda: thunk(c.model()), c.unordered, 'data.c=%s%r' % (shape.__name__, c.elems),
+                            s.stop_iteration, {'kind': 'fn', 'name': s.name, 'shard': spec['name'], 'index': i,
+                                               'per_fn': spec['per_fn']}, data=host)
         if len(rec.samples) < 4 and s.name in ('replace-count', 'groupBy', 'join', 'orderBy'):
             rec.sample({'function': s.name, 'text': text, 'input': desc, 'yaql': got, 'model': want})
 
@@ -645,6 +750,25 @@ def _laws(spec, mon, rec, rng):
         r = val('$c.where(true).len() = $c.len() and $c.where(false).len() = 0', c=Coll(c.elems, 'tuple'))
         if r != ('value', True):
             bad('where-constant', '%r' % (r,), c)
+        # sum is the fold of `+` over the elements, whatever the receiver kind (floats: exactly that fold)
+        fl = [rng.choice([0.1, 0.2, 0.3, 1e100, -1e100, 1.0, 3, 2.5, 1e-9, 7, 0.7]) for _ in range(rng.randrange(0, 7))]
+        r1 = val('$c.sum()', c=Coll(fl, 'tuple'))
+        r2 = val('$c.aggregate($1 + $2)', c=Coll(fl, 'tuple'))
+        r3 = val('$c.select($).sum()', c=Coll(fl, 'tuple'))
+        if fl and (repr(r1) != repr(r2) or repr(r1) != repr(r3)):
+            bad('sum-is-fold-of-plus', 'sum() = %r, aggregate($1 + $2) = %r, select($).sum() = %r on %r' % (r1, r2, r3, fl), c)
+        r1 = val('$c.sum(0.5)', c=Coll(fl, 'tuple'))
+        r2 = val('$c.aggregate($1 + $2, 0.5)', c=Coll(fl, 'tuple'))
+        if repr(r1) != repr(r2):
+            bad('sum-is-fold-of-plus', 'sum(0.5) = %r, aggregate($1 + $2, 0.5) = %r on %r' % (r1, r2, fl), c)
+        # ordering uses each element's own key, also for elements that are equal to one another
+        recs = [{'k': rng.choice([1, 2]), 'v': rng.choice([1, 1.0, True]) if rng.random() < 0.5 else rng.choice([0, 0.0, False])}
+                for _ in range(rng.randrange(2, 6))]
+        r = val('$c.select($.v).orderBy(str($)).select(str($))', c=Coll(recs, 'tuple'))
+        want = sorted((ml.yaql_str(x['v']) for x in recs))
+        if r[0] == 'value' and list(r[1]) != want:
+            bad('orderBy-own-key-of-equal-elements', 'orderBy(str($)) over %r gives %r, sorted keys are %r' % (
+                [x['v'] for x in recs], r[1], want), c)
         if i % 100 == 0:
             rec.sample({'law-input': c.desc()})
 
